@@ -90,6 +90,10 @@ struct lyd_node;
 #define LYXP_STRING_CAST_SIZE_START 64
 #define LYXP_STRING_CAST_SIZE_STEP 16
 
+/* maximum number of fraction digits of a number converted into a string,
+ * the smallest positive long double is ~3.6e-4951 */
+#define LYXP_NUM_FRAC_DIGITS_MAX 4951
+
 /* Maximum number of nested expressions. */
 #define LYXP_MAX_BLOCK_DEPTH 100
 
